@@ -394,6 +394,28 @@ full_oracle(const char *fn, dns_hdr_p hdr, size_t msg_size, const int *rec, int 
 		free(nb);
 		off += p->need;
 	}
+	/* look every record up by its owner name, the way the resolver does: the first record of that name must be found */
+	{
+		int j, first;
+		for (i = 0; i < nrec && !bad; i ++) {
+			const op_t *p = &ops[rec[i]], *f;
+			size_t foff = exp_off[1], fcnt = (size_t)(cnt[1] + cnt[2] + cnt[3]), want_off = exp_off[1], fsz = 0;
+			uint16_t t = 0xdead, c = 0xdead, ds = 0; uint32_t ttl = 0; void *dp = NULL;
+			if (K_RR != p->kind) continue;
+			first = -1;
+			for (j = 0; j < nrec; j ++) {
+				if (K_Q == ops[rec[j]].kind) continue;
+				if (first < 0 && K_RR == ops[rec[j]].kind && ops[rec[j]].name == p->name) { first = j; break; }
+				want_off += ops[rec[j]].need;
+			}
+			if (first < 0) continue;
+			f = &ops[rec[first]];
+			rc = dns_msg_rr_find(hdr, msg_size, &foff, &fcnt, p->name->text, p->name->tlen, &t, &c, &ttl, &ds, &dp, &fsz);
+			if (0 != rc) FAIL("find-by-name", "dns_msg_rr_find of the owner name of rr #%d: rc=%d, the record is in the message", i, rc);
+			else if (foff != want_off || t != f->type || c != f->class || fsz != f->need)
+				FAIL("find-by-name", "dns_msg_rr_find of the owner name of rr #%d: offset %zu type/class %u/%u size %zu, first record of that name is at %zu (%u/%u, %zu bytes)", i, foff, t, c, fsz, want_off, f->type, f->class, f->need);
+		}
+	}
 	return (bad);
 #undef FAIL
 }
